@@ -7,7 +7,7 @@ RULE = ("correspondence: from_sources on sequences (all pairs over a 60-document
         "random deep shapes. oracle: the property statement itself on the implementation; a failure whose merged shape is "
         "OneOf-free (decided by the extracted oneof_free) is an unlisted violation, the complement is known class KF2. "
         "non-trivial = sequence with >=2 distinct sources; distinct = distinct (sequence, source) pair")
-ASSUMPTIONS = ["documents rendered canonically", "known class KF2 = merged shape contains a OneOf (decidable predicate oneof_free from Model/Shape.v)"]
+ASSUMPTIONS = ["documents rendered canonically", "known class KF2 = merged shape has a OneOf node with a variant that is not a non-optional scalar (decidable predicate scalar_oneofs from Model/OneOfClass.v = false)"]
 
 def run(ctx):
     base = [doc_str(d) for d in vlib.BASE_DOCS]
@@ -42,11 +42,16 @@ def run(ctx):
         if (a, b, c) != ("BOOL 1", "BOOL 1", "BOOL 1"):
             bad.append((l, d, m, [a, b, c]))
     if bad:
-        of = vlib.model_bools(["oneof_free\t" + m for _, _, m, _ in bad])
+        of = vlib.model_bools(["scalar_oneofs\t" + m for _, _, m, _ in bad])
         for (l, d, m, r), free in zip(bad, of):
             ctx.fail("merged shape does not accept one of its own sources", l, {"source": d, "merged": m, "answers": r},
                      known=None if free else "KF2")
     ctx.notes["source_checks"] = len(meta)
+    merged = list(dict.fromkeys(m for _, _, m in meta))
+    cls = dict(zip(merged, vlib.model_bools(["scalar_oneofs\t" + m for m in merged])))
+    fre = dict(zip(merged, vlib.model_bools(["oneof_free\t" + m for m in merged])))
+    ctx.notes["source_checks_in_theorem_class"] = sum(1 for _, _, m in meta if cls[m])
+    ctx.notes["source_checks_in_theorem_class_with_a_OneOf"] = sum(1 for _, _, m in meta if cls[m] and not fre[m])
     ctx.notes["rejected_own_source"] = len(bad)
     # every shape is accepted by itself
     shapes = vlib.level1() + [vlib.rand_shape(ctx.rng, 4) for _ in range(1500 if ctx.tier == "quick" else 30000)]
